@@ -546,7 +546,7 @@ func equalStrs(a, b []string) bool {
 
 func TestC19(t *testing.T) {
 	c := ev.Get("C19")
-	c.Rule = "rapid-generated pools of 2-9 synthetic entries (distinct hashes - in a fifth of the pools several objects share one identifier or have none yet (cid.Undef), with whatever clocks: only equal hash AND equal clock is the same entry; times from {0,1,2,3,2^31,2^62,random>=0}; clock ids from a pool with prefix relations and ids that differ in letter case only); every ordered pair and triple of the pool is checked against the order laws, and every sorter is run on two different shuffles (+ duplicates) of the pool. Non-trivial = the pool has at least one equal-time pair and at least one equal-clock-id pair; distinct = distinct generated program (sha256 of its JSON). In a third of the pools the entry objects have a generated construction history (struct literal, setters, earlier hash / clock overwritten through setters or through the exported fields, value copy): the laws are about the current clock and hash only."
+	c.Rule = "rapid-generated pools of 2-9 synthetic entries (distinct hashes - in a fifth of the pools several objects share one identifier or have none yet (cid.Undef), with whatever clocks: only equal hash AND equal clock is the same entry; times from {0,1,2,3,2^31,2^62,random>=0}; clock ids from a pool with prefix relations and ids that differ in letter case only); every ordered pair and triple of the pool is checked against the order laws, and every sorter is run on two different shuffles (+ duplicates) of the pool. Non-trivial = the pool has at least one equal-time pair and at least one equal-clock-id pair; distinct = distinct generated program (sha256 of its JSON). In a third of the pools the entry objects have a generated construction history (struct literal, setters, earlier hash / clock overwritten through setters or through the exported fields, value copy): the laws are about the current clock and hash only. Construction histories include a clock object that was compared at an earlier time and then ticked / merged in place."
 	c.Assumptions = []string{"clock times are non-negative Lamport times <= 2^62 (Compare subtracts, so mixed-sign extremes would overflow; outside the documented domain)", "two objects are the same entry only if hash AND clock are equal (objects under one identifier with different clocks are distinct)"}
 	ev.Check(t, "C19", genC19, runC19)
 }
